@@ -62,6 +62,10 @@ type PCase struct {
 	Doc    string      `json:"doc"`
 	Err    string      `json:"err,omitempty"`
 	Panic  string      `json:"panic,omitempty"`
+	HasHdr bool        `json:"has_hdr"`          // the request was also sent with a TTL header
+	FpHdr  string      `json:"fp_hdr,omitempty"` // its fingerprint then
+
+	hdr *pbody
 }
 
 type pbody struct {
@@ -168,7 +172,7 @@ func genProto(r *rand.Rand, id int) (PCase, []pbody) {
 	c := PCase{ID: id}
 	bg := context.Background()
 	var bodies []pbody
-	switch id % 7 {
+	switch id % 8 {
 	case 0:
 		c.Class = "datadog_logs"
 		var tags [][2]string
@@ -329,6 +333,27 @@ func genProto(r *rand.Rand, id int) (PCase, []pbody) {
 		}
 		// the Go map decides the order anew on every run
 		bodies = []pbody{mk(), mk(), mk(), mk()}
+	case 7:
+		// a Loki push whose stream carries the control label __ttl_days__, without and with a TTL header (X-Ttl-Days)
+		c.Class = "loki_ttl_label"
+		var ls [][2]string
+		n := 1 + r.Intn(3)
+		for i := 0; i < n; i++ {
+			ls = append(ls, [2]string{[]string{"app", "env", "dc"}[i], genField(r) + "v"})
+		}
+		ttl := []string{"5", "30", "x", ""}[r.Intn(4)]
+		ls = append(ls, [2]string{"__ttl_days__", ttl})
+		ls = shuffled2(r, ls)
+		c.Wire = Wire{Kind: "loki_ttl", Tags: hexPairs2(ls)}
+		mk := func(l [][2]string) []byte {
+			var m []string
+			for _, kv := range l {
+				m = append(m, jsonStr(kv[0])+":"+jsonStr(kv[1]))
+			}
+			return []byte(`{"streams":[{"stream":{` + strings.Join(m, ",") + `},"values":[["1704888000000000000","x"]]}]}`)
+		}
+		bodies = []pbody{{unmarshal.DecodePushRequestStringV2, bg, mk(ls)}, {unmarshal.DecodePushRequestStringV2, bg, mk(shuffled2(r, ls))}}
+		c.hdr = &pbody{unmarshal.DecodePushRequestStringV2, context.WithValue(bg, "TTL_DAYS", uint16(7)), mk(ls)}
 	default:
 		c.Class = "influx_metric"
 		var tags [][2]string
@@ -389,19 +414,32 @@ func observeProto(c *PCase, bodies []pbody) {
 			return
 		}
 		c.FpDjb = strconv.FormatUint(f, 10)
-		// oracle tables from the stored document's members
+		docs := []string{doc}
+		if c.hdr != nil {
+			fh, dh, err := runP(*c.hdr)
+			if err != nil {
+				c.Err = "with TTL header: " + err.Error()
+				return
+			}
+			c.HasHdr = true
+			c.FpHdr = strconv.FormatUint(fh, 10)
+			docs = append(docs, dh)
+		}
+		// oracle tables from the stored documents' members
 		var pairs [][2]string
-		dec := json.NewDecoder(strings.NewReader(doc))
-		if tok, err := dec.Token(); err == nil && tok == json.Delim('{') {
-			for dec.More() {
-				k, e1 := dec.Token()
-				v, e2 := dec.Token()
-				ks, ok1 := k.(string)
-				vs, ok2 := v.(string)
-				if e1 != nil || e2 != nil || !ok1 || !ok2 {
-					break
+		for _, dc := range docs {
+			dec := json.NewDecoder(strings.NewReader(dc))
+			if tok, err := dec.Token(); err == nil && tok == json.Delim('{') {
+				for dec.More() {
+					k, e1 := dec.Token()
+					v, e2 := dec.Token()
+					ks, ok1 := k.(string)
+					vs, ok2 := v.(string)
+					if e1 != nil || e2 != nil || !ok1 || !ok2 {
+						break
+					}
+					pairs = append(pairs, [2]string{ks, vs})
 				}
-				pairs = append(pairs, [2]string{ks, vs})
 			}
 		}
 		seen := map[string]bool{}
